@@ -8,7 +8,7 @@ def run(tier):
                "[..] level, incl. ghost->ghost_owned+ghost_ref and ghosts->ghosts_owned+ghosts_ref and try_ forms - replaced by the README's list of basic instructions; "
                "multisets of impl items must be equal / same verdict. distinct_nontrivial = distinct (shortcut name, level, struct|enum, family) seen in a compared pair.")
     g = xgen.G(common.rng_for("C12", tier))
-    n = 1500 if tier == "quick" else 40000
+    n = 3000 if tier == "quick" else 40000
     items, longs = [], []
     while len(items) < n:
         it = xgen.gen(g)
